@@ -180,7 +180,9 @@ func VerifInternals(t *Dense) VerifDenseInternals {
 	}
 	r.MaskIsSoft = t.maskIsSoft
 	r.RawLen = len(t.array.Header.Raw)
-	r.RawPtr = t.array.Uintptr()
+	if len(t.array.Header.Raw) > 0 {
+		r.RawPtr = t.array.Uintptr() // panics on an empty window (a tensor that was handed to ReturnTensor)
+	}
 	_, r.EngineIsStd = t.e.(StdEng)
 	return r
 }
@@ -222,6 +224,8 @@ func VerifMetaHash(t *Dense) uint64 {
 		}
 	}
 	add(uint64(len(t.array.Header.Raw)))
-	add(uint64(t.array.Uintptr()))
+	if len(t.array.Header.Raw) > 0 {
+		add(uint64(t.array.Uintptr()))
+	}
 	return h
 }
